@@ -71,6 +71,7 @@ type Op struct {
 	Kind      int
 	Path      *PathSpec
 	Cfg       CfgSpec
+	CfgVal    []jsonpath.Config // a Config VALUE shared by several operations/tasks (nil: built per call from Cfg)
 	Slot      int
 	Doc       int
 	Faults    [nFuncs]uint64
@@ -548,7 +549,13 @@ func (w *World) execOp(t *Task, idx int) {
 	}
 	switch o.Kind {
 	case opParse, opParseFail, opParseKept:
-		fn, out := safeParse(o.Path.Text, cfgArgs(o.Cfg), 0)
+		cv := o.CfgVal
+		if cv == nil {
+			cv = cfgArgs(o.Cfg)
+		} else {
+			t.probe("parse-with-a-config-value-shared-between-tasks")
+		}
+		fn, out := safeParse(o.Path.Text, cv, 0)
 		pf := &ParsedFn{Path: o.Path, Cfg: o.Cfg, Fn: fn, Out: out}
 		for len(t.fns) <= o.Slot {
 			t.fns = append(t.fns, nil)
